@@ -72,6 +72,12 @@ func ensureFixture(work string, o harness.Options) (string, error) {
 		os.RemoveAll(dir)
 		return "", err
 	}
+	// a service whose id contains the '-' that also separates the parts of a transaction id
+	if err := w.RegisterService(harness.ChainAdmin(harness.ChainC), harness.ChainC, "s-4", true, ""); err != nil {
+		w.R.Close()
+		os.RemoveAll(dir)
+		return "", err
+	}
 	// the other BitXHub: requests towards it are accepted and time out like any other (its receipts would
 	// need its validators' signatures, which this workload does not produce)
 	if err := registerHub(w); err != nil {
@@ -119,6 +125,7 @@ func ixPairs(rng *rand.Rand) []ixPairDef {
 		{ixServices[1], ixServices[1], true, false},                            // a service addressing itself: source and destination record are one
 		{ixServices[2], ixServices[3], true, false},                            // two services of one chain
 		{harness.FullID(harness.ChainC, "s3"), ixServices[2], true, false},     // the source is registered as unordered: its receipts are index-checked all the same
+		{harness.FullID(harness.ChainC, "s-4"), ixServices[1], true, false},    // a '-' inside the source service id
 		{ixServices[0], hubID + ":cX:sY", true, true},                          // towards a service of the other BitXHub: requests only (receipts lack its validators' signatures)
 		{ixServices[2], hubID + ":cX:mint,burn,swap", true, true},              // the same with a service id that contains the separator of the timeout lists: refused at the door
 	}
